@@ -21,10 +21,14 @@ import (
 	"reflect"
 	"regexp"
 	"sort"
+	"strconv"
 	"strings"
 	"sync"
+	"sync/atomic"
 
 	"verifharness/lib"
+
+	gologging "gopkg.in/op/go-logging.v1"
 
 	"github.com/thought-machine/please/src/core"
 	"github.com/thought-machine/please/src/format"
@@ -295,34 +299,64 @@ func evalPackages(root string, names []string) map[string]evalResult {
 	if len(names) == 0 {
 		return out
 	}
-	if m, _, ok := query(names); ok {
-		split(m, names)
-		return out
-	}
-	var mu sync.Mutex
-	var wg sync.WaitGroup
-	sem := make(chan struct{}, 4)
-	for _, n := range names {
-		wg.Add(1)
-		go func(n string) {
-			defer wg.Done()
-			sem <- struct{}{}
-			defer func() { <-sem }()
-			m, e, ok := query([]string{n})
-			mu.Lock()
-			defer mu.Unlock()
-			if ok {
-				split(m, []string{n})
-			} else {
-				out[n] = evalResult{Err: e}
+	// a rejected package fails the whole invocation and is named by it (`//cN:all failed`): record its error, evaluate the rest again
+	failedPkg := regexp.MustCompile(`//([A-Za-z0-9_]+):all failed`)
+	rest := append([]string{}, names...)
+	for len(rest) > 0 {
+		m, e, ok := query(rest)
+		if ok {
+			split(m, rest)
+			break
+		}
+		mm := failedPkg.FindStringSubmatch(e)
+		idx := -1
+		if mm != nil {
+			for i, n := range rest {
+				if n == mm[1] {
+					idx = i
+				}
 			}
-		}(n)
+		}
+		if idx < 0 {
+			// cannot tell which package failed: one invocation per package
+			for _, n := range rest {
+				if m1, e1, ok1 := query([]string{n}); ok1 {
+					split(m1, []string{n})
+				} else {
+					out[n] = evalResult{Err: e1}
+				}
+			}
+			break
+		}
+		// confirm on its own (the message of a batch may mix several packages)
+		if m1, e1, ok1 := query([]string{rest[idx]}); ok1 {
+			split(m1, []string{rest[idx]})
+		} else {
+			out[rest[idx]] = evalResult{Err: e1}
+		}
+		rest = append(rest[:idx], rest[idx+1:]...)
 	}
-	wg.Wait()
 	return out
 }
 
-// canon makes two evaluations comparable: visibility is a set in Please (order never observable).
+var quoted = regexp.MustCompile(`'[^']*'|"[^"]*"|c[0-9]+|[0-9]+`)
+
+// reason abbreviates an error message for the histogram of rejected generated files.
+func reason(e string) string {
+	parts := strings.Split(e, " | ")
+	r := e
+	if len(parts) > 1 {
+		r = parts[1]
+	}
+	r = quoted.ReplaceAllString(r, "_")
+	if len(r) > 60 {
+		r = r[:60]
+	}
+	return r
+}
+
+// canon makes two evaluations comparable: visibility is a set in Please (order never observable), and PUBLIC subsumes
+// every other entry.
 func canon(ts map[string]map[string]any) map[string]map[string]any {
 	out := map[string]map[string]any{}
 	for l, attrs := range ts {
@@ -335,6 +369,14 @@ func canon(ts map[string]map[string]any) map[string]map[string]any {
 						ss[i] = fmt.Sprint(x)
 					}
 					sort.Strings(ss)
+					for _, x := range ss {
+						// PUBLIC is printed as //... when other entries follow it and as PUBLIC when it comes last
+						// (it then replaces the list): the same visibility
+						if x == "PUBLIC" || x == "//..." {
+							ss = []string{"PUBLIC"}
+							break
+						}
+					}
 					v = ss
 				}
 			}
@@ -398,6 +440,98 @@ func sortedSet(xs []string) []string {
 
 func sameSet(a, b []string) bool { return reflect.DeepEqual(sortedSet(a), sortedSet(b)) }
 
+// stringLiterals collects the values of all string literals of a file as the real asp parser reads them.
+func stringLiterals(src string) []string {
+	stmts, err := parser.ParseData([]byte(src), "BUILD")
+	if err != nil {
+		return nil
+	}
+	out := []string{}
+	seen := map[uintptr]bool{}
+	var walk func(v reflect.Value)
+	walk = func(v reflect.Value) {
+		switch v.Kind() {
+		case reflect.Ptr:
+			if v.IsNil() || seen[v.Pointer()] {
+				return
+			}
+			seen[v.Pointer()] = true
+			walk(v.Elem())
+		case reflect.Interface:
+			if !v.IsNil() {
+				walk(v.Elem())
+			}
+		case reflect.Slice:
+			for i := 0; i < v.Len(); i++ {
+				walk(v.Index(i))
+			}
+		case reflect.Struct:
+			if v.Type().Name() == "ValueExpression" {
+				if s := v.FieldByName("String").String(); s != "" {
+					out = append(out, s)
+				}
+			}
+			if v.Type().Name() == "FStringVar" {
+				out = append(out, "f:"+v.FieldByName("Prefix").String())
+			}
+			if v.Type().Name() == "FString" {
+				out = append(out, "f:"+v.FieldByName("Suffix").String())
+			}
+			for i := 0; i < v.NumField(); i++ {
+				if v.Type().Field(i).IsExported() {
+					walk(v.Field(i))
+				}
+			}
+		}
+	}
+	walk(reflect.ValueOf(stmts))
+	return out
+}
+
+var escapeSeq = regexp.MustCompile(`\\x[0-9a-fA-F]{2}|\\[0-7]{1,3}`)
+
+// decodeEscapes decodes \xHH and \ooo (which asp leaves alone and Python / buildtools decode).
+func decodeEscapes(s string) string {
+	return escapeSeq.ReplaceAllStringFunc(s, func(m string) string {
+		var n int64
+		if m[1] == 'x' {
+			n, _ = strconv.ParseInt(m[2:], 16, 32)
+		} else {
+			n, _ = strconv.ParseInt(m[1:], 8, 32)
+		}
+		return string([]byte{byte(n)})
+	})
+}
+
+// requotedLiterals pairs the string literals whose asp value differs between the two texts and that are equal up to
+// hex / octal escapes: octal = the source literal had no such escape (non-ASCII bytes were escaped), decoded = it had.
+func requotedLiterals(src, formatted string) (octal, decoded []string) {
+	count := func(xs []string) map[string]int {
+		m := map[string]int{}
+		for _, x := range xs {
+			m[x]++
+		}
+		return m
+	}
+	a, b := count(stringLiterals(src)), count(stringLiterals(formatted))
+	for _, x := range lib.SortedKeys(a) {
+		if a[x] <= b[x] {
+			continue
+		}
+		for _, y := range lib.SortedKeys(b) {
+			if b[y] > a[y] && x != y && decodeEscapes(x) == decodeEscapes(y) {
+				if escapeSeq.MatchString(x) {
+					decoded = append(decoded, x+" -> "+y)
+				} else {
+					octal = append(octal, x+" -> "+y)
+				}
+				break
+			}
+		}
+	}
+	return octal, decoded
+}
+
 // continuation after a string literal, followed by a line that starts with a string literal
 var stringContinuation = regexp.MustCompile(`["'] \\\n\s*[rf]?["']`)
 var anyContinuation = regexp.MustCompile(`\\\n`)
@@ -445,6 +579,8 @@ var fixedCases = []e2eCase{
 	{Kind: "build", Src: "filegroup(name = \"t\", srcs = [\"b.txt\", \"a.txt\"])\n"},
 	{Kind: "build", Src: "filegroup(name = \"t\", srcs = [\"b.txt\", \"a.txt\", \"b.txt\"])\n"},
 	{Kind: "build", Src: "genrule(name = \"t\", srcs = [\"b.txt\", \"a.txt\"], outs = [\"o2\", \"o1\"], cmd = \"true\")\n"},
+	{Kind: "build", Src: "build_rule(name = \"t\", cmd = \"true\", outs = [\"o2\", \"o1\"], tools = [\"//lib:other\", \"//lib:lib\"], data = [\"b.txt\", \"a.txt\"], exported_deps = [\"//lib:other\", \"//lib:lib\"], labels = [\"z\", \"a\"])\n"},
+	{Kind: "build", Src: "s = 'caf\xc3\xa9'\nt = \"caf\xc3\xa9\"\nu = \"a\\\xc3\xa9\"\nfilegroup(name = \"t\", labels = [s, t, u, str(len(s))])\n"},
 	{Kind: "build", Src: "filegroup(name = \"t\", deps = [\"//lib:lib\", \"//lib:other\", \"//lib\"], visibility = [\"PUBLIC\", \"//c0/...\"])\n"},
 	{Kind: "build", Src: "x = 0644\ny = 1 - 2 * 3 - 4\nfilegroup(name = \"t\", labels = [str(x), str(y), '\\x41', 'it\\'s', \"tab\\there\"])\n"},
 }
@@ -462,6 +598,7 @@ func main() {
 		c.Rule("bytes: all 256 single bytes after `x = 1` through asp.ParseData (exhaustive). " +
 			"simplify: generated runs of top-level subinclude calls (plain, single-quoted, raw, triple-quoted, f-string with and without interpolation, concatenation, list, identifier arguments; 0-3 arguments; attached comments, comment blocks, blank lines and other statements between them) through buildtools ParseBuild and the real simplify; non-trivial = at least one merge or an unmergeable call next to a mergeable one. " +
 			"e2e: generated BUILD and build_defs files (string concatenation with + and implicit, f-strings, raw / single / triple quoted strings with escapes, % and format(), annotations with aliases and unions, comprehensions, inline if, dict |, lambdas, slices, top-level if/for, rule calls with literal and computed attributes, consecutive subincludes) formatted by the real format() and evaluated by the real plz binary before and after (every target, every attribute, every variable through a probe target), second format pass; distinct = distinct source texts; non-trivial = accepted by Please before formatting and changed by the formatter")
+		gologging.SetLevel(gologging.CRITICAL, "plz")
 		state := core.NewDefaultBuildState()
 		parser = asp.NewParser(state)
 
@@ -486,7 +623,7 @@ func main() {
 		nsimp := c.Scale(500, 6000)
 		for i := 0; i < nsimp; i++ {
 			r := c.Rng.Fork()
-			g := &gen{r: r, feat: map[string]bool{}}
+			g := &gen{r: r, feat: map[string]bool{}, emptySub: true}
 			var b strings.Builder
 			for k := r.Range(1, 4); k > 0; k-- {
 				b.WriteString(g.subRun())
@@ -567,6 +704,7 @@ func e2e(c *lib.Ctx) {
 	before := make([]evalResult, len(cases))
 	after := make([]evalResult, len(cases))
 	var wg sync.WaitGroup
+	var confirmed atomic.Int32
 	sem := make(chan struct{}, 3)
 	for lo := 0; lo < len(cases); lo += batch {
 		hi := min(lo+batch, len(cases))
@@ -579,6 +717,7 @@ func e2e(c *lib.Ctx) {
 				root := filepath.Join(work, fmt.Sprintf("repo-%d-%d", lo, side))
 				pkgs := map[string]pkgFiles{}
 				good, alone := []string{}, []string{}
+				aloneErr := map[string]string{}
 				for i := lo; i < hi; i++ {
 					cs := cases[i]
 					text := cs.Src
@@ -590,8 +729,9 @@ func e2e(c *lib.Ctx) {
 					}
 					pkgs[cs.Name] = cs.files(text)
 					// a file the in-process asp parser already rejects would fail the whole batch: evaluate it alone
-					if aspParse(text) != nil {
+					if err := aspParse(text); err != nil {
 						alone = append(alone, cs.Name)
+						aloneErr[cs.Name] = err.Error()
 					} else {
 						good = append(good, cs.Name)
 					}
@@ -599,8 +739,16 @@ func e2e(c *lib.Ctx) {
 				writeRepo(root, pkgs)
 				res := evalPackages(root, good)
 				for _, n := range alone {
-					for k, v := range evalPackages(root, []string{n}) {
-						res[k] = v
+					// the real parser (in process) rejects the text; the first few are confirmed with the real binary too
+					if confirmed.Add(1) <= 4 {
+						for k, v := range evalPackages(root, []string{n}) {
+							res[k] = v
+						}
+						if res[n].OK {
+							res[n] = evalResult{Err: "DISAGREEMENT: asp.ParseData rejects the text in process but the plz binary accepts it"}
+						}
+					} else {
+						res[n] = evalResult{Err: "asp.ParseData: " + aloneErr[n]}
 					}
 				}
 				for i := lo; i < hi; i++ {
@@ -639,6 +787,11 @@ func e2e(c *lib.Ctx) {
 		switch {
 		case !accepted:
 			c.Hist("e2e", "rejected-before-formatting")
+			c.Hist("rejected_reason", reason(before[i].Err))
+			if d := os.Getenv("VERIF_C38_DUMP"); d != "" {
+				data, _ := json.MarshalIndent(js, "", " ")
+				os.WriteFile(filepath.Join(d, "rejected-"+cs.Name+".json"), data, 0o644)
+			}
 			js["error_before"] = before[i].Err
 			if cs.Fixed {
 				c.Note("fixed case %s is not accepted by Please before formatting: %s", cs.Name, before[i].Err)
@@ -692,39 +845,64 @@ func e2e(c *lib.Ctx) {
 		}
 		js["differences"] = ds
 		// classify by the shape of the difference
-		sortedOnly, dedupOnly, other := true, true, false
-		attrs := map[string]bool{}
+		// (1) literal string lists that were only reordered / deduplicated
+		rest := []diff{}
+		sortedAttrs, dedupAttrs := map[string]bool{}, map[string]bool{}
 		for _, d := range ds {
-			if d.MissingOrExtra != "" {
-				other = true
-				continue
-			}
-			attrs[d.Attr] = true
 			a, ok1 := toStrings(d.Before)
 			b, ok2 := toStrings(d.After)
-			if !ok1 || !ok2 || !sameSet(a, b) {
-				other = true
+			if d.MissingOrExtra == "" && ok1 && ok2 && sameSet(a, b) {
+				if len(a) == len(b) {
+					sortedAttrs[d.Attr] = true
+				} else {
+					dedupAttrs[d.Attr] = true
+				}
 				continue
 			}
-			if len(a) == len(b) {
-				dedupOnly = false
+			rest = append(rest, d)
+		}
+		if len(sortedAttrs) > 0 {
+			names := strings.Join(lib.SortedKeys(sortedAttrs), ",")
+			listed := true
+			for a := range sortedAttrs {
+				listed = listed && (a == "srcs" || a == "data" || a == "tools" || a == "exported_deps")
+			}
+			if listed {
+				c.Fail("literal-string-list-attribute-sorted", "a literal list of strings given for "+names+" is reordered by the formatter (buildifier's listsort); the target's attribute changes", js)
 			} else {
-				sortedOnly = false
+				c.Fail("literal-string-list-attribute-sorted:"+names, "a literal list of strings given for "+names+" is reordered by the formatter; the target's attribute changes", js)
 			}
 		}
-		names := strings.Join(lib.SortedKeys(attrs), ",")
+		if len(dedupAttrs) > 0 {
+			names := strings.Join(lib.SortedKeys(dedupAttrs), ",")
+			c.Fail("literal-string-list-attribute-deduplicated:"+names, "duplicate entries of a literal list of strings given for "+names+" are removed by the formatter", js)
+		}
+		if len(rest) == 0 {
+			continue
+		}
+		// (2) string literals whose asp value the formatter changed by re-quoting them
+		octal, decoded := requotedLiterals(cs.Src, o.Formatted)
 		switch {
-		case moved && other:
+		case moved:
 			c.Fail("fstring-subinclude-arg-hoisted-over-earlier-subinclude",
 				"simplify merged subinclude calls and moved an f-string argument in front of an earlier subinclude; the file now evaluates differently", js)
-		case other:
-			c.Fail("evaluation-differs", fmt.Sprintf("the formatted file evaluates differently: %v", ds[0]), js)
-		case sortedOnly:
-			c.Fail("literal-string-list-attribute-sorted:"+names, "a literal list of strings given for "+names+" is reordered by the formatter; the target's attribute changes", js)
-		case dedupOnly:
-			c.Fail("literal-string-list-attribute-deduplicated:"+names, "duplicate entries of a literal list of strings given for "+names+" are removed by the formatter", js)
+		case len(octal)+len(decoded) > 0:
+			if len(octal) > 0 {
+				js["requoted"] = octal
+				c.Fail("requoted-string-non-ascii-becomes-octal-escape",
+					"a string literal that the formatter re-quotes (single-quoted, or with non-canonical escapes) has its non-ASCII bytes written as \\ooo octal escapes, which asp does not decode: the string value changes", js)
+			}
+			if len(decoded) > 0 {
+				js["requoted"] = decoded
+				c.Fail("requoted-string-hex-or-octal-escape-decoded",
+					"a string literal that the formatter re-quotes has its \\xHH / \\ooo escapes decoded, which asp reads as plain characters: the string value changes", js)
+			}
 		default:
-			c.Fail("literal-string-list-attribute-sorted-and-deduplicated:"+names, "a literal list of strings given for "+names+" is sorted and deduplicated by the formatter", js)
+			if d := os.Getenv("VERIF_C38_DUMP"); d != "" {
+				data, _ := json.MarshalIndent(js, "", " ")
+				os.WriteFile(filepath.Join(d, cs.Name+".json"), data, 0o644)
+			}
+			c.Fail("evaluation-differs", fmt.Sprintf("the formatted file evaluates differently: %v", rest[0]), js)
 		}
 	}
 
